@@ -9,10 +9,11 @@ from . import refike as R
 from .childcheck import newsa_index, PROTO_NUM
 from .kernel import _addr_raw
 
-KINDS_C11 = ('invalid_ke_never_offered', 'foreign_child_response', 'foreign_init_response', 'multi_proposal_request')
+KINDS_C11 = ('invalid_ke_never_offered', 'foreign_child_response', 'foreign_init_response', 'multi_proposal_request', 'foreign_ike_rekey_response')
 KINDS_C10 = ('bad_reply',)
 KINDS_C17 = ('auth_malformed',)
-KINDS_C12 = ('widen_response', 'flip_mode_response', 'ts_list_request', 'narrow_rekey_response', 'flip_mode_request')
+KINDS_C14 = ('reuse_spi_request',)
+KINDS_C12 = ('widen_response', 'flip_mode_response', 'ts_list_request', 'narrow_rekey_response', 'flip_mode_request', 'narrow_rekey_request')
 
 
 def _rb(r, n):
@@ -29,6 +30,25 @@ def _seal_raw(h, first, inner, suite, sk_a, sk_e, iv):
                     struct.pack('>BBH', first, 0, 4 + len(body)) + body)
     msg[-suite.icv:] = R.integ(suite.integ, sk_a, bytes(msg[:-suite.icv]))
     return bytes(msg)
+
+
+def _foreign_first(r, trs, offered):
+    """Insert, in front of a chosen transform, one of the same type that was never offered (another identifier or key length)."""
+    offered = offered or set()
+    for t in r.sample(trs, len(trs)):
+        if t['type'] == R.T_ENCR:
+            cand = [(12, k) for k in (128, 192, 256) if (R.T_ENCR, 12, k) not in offered]
+            if cand:
+                i, k = r.choice(cand)
+                trs.insert(trs.index(t), {'type': R.T_ENCR, 'id': i, 'keylen': k, 'attrs': [(14, k)]})
+                return True
+        elif t['type'] in (R.T_PRF, R.T_INTEG, R.T_DH):
+            ids = {R.T_PRF: (2, 5, 7), R.T_INTEG: (2, 12, 14), R.T_DH: (14, 19, 20, 21)}[t['type']]
+            cand = [i for i in ids if (t['type'], i, None) not in offered and i != t['id']]
+            if cand:
+                trs.insert(trs.index(t), {'type': t['type'], 'id': r.choice(cand), 'keylen': None, 'attrs': []})
+                return True
+    return False
 
 
 def make(kind, seed, world, ip, tap, reach):
@@ -251,9 +271,20 @@ def make(kind, seed, world, ip, tap, reach):
 
     # ------------------------------------------------------------------------------------------------------------
     if kind == 'foreign_init_response':
+        state['offers'] = {}
+
         def rule(meta, data):
             try:
                 h = R.dec_header(data)
+                if h['exch'] == R.IKE_SA_INIT and not h['R']:
+                    q = next((R.dec_payload(p) for p in R.dec_chain(data[28:], h['next']) if p['type'] == R.P_SA), None)
+                    if q is not None and q['proposals']:
+                        state['offers'][h['spi_i']] = {(t['type'], t['id'], t['keylen']) for t in q['proposals'][0]['transforms']}
+                if h['exch'] == R.IKE_AUTH and not h['R'] and h['id'] == 1:
+                    # the initiator went on with the exchange: it did not refuse the response
+                    for t in state['tampered']:
+                        if (t['spi_i'], t['spi_r']) == (h['spi_i'], h['spi_r']) and meta['sender'] == t['receiver'] and 'went_on' not in t:
+                            t['went_on'] = world.now
                 if h['exch'] != R.IKE_SA_INIT or not h['R']:
                     return None
                 pls = [R.dec_payload(p) for p in R.dec_chain(data[28:], h['next'])]
@@ -264,9 +295,11 @@ def make(kind, seed, world, ip, tap, reach):
                 return None
             r = random.Random(f'byz:{seed}:{meta["key"]}')
             trs = sa['proposals'][0]['transforms']
-            how = r.choice(['extra', 'two_of_one', 'missing', 'keylen'])
+            how = r.choice(['extra', 'two_of_one', 'missing', 'keylen', 'foreign_first'])
             if how == 'extra':
                 trs.append({'type': R.T_ESN, 'id': 0, 'keylen': None, 'attrs': []})
+            elif how == 'foreign_first':
+                _foreign_first(r, trs, state['offers'].get(h['spi_i']))
             elif how == 'two_of_one':
                 t = next(t for t in trs if t['type'] == R.T_PRF)
                 trs.append({'type': R.T_PRF, 'id': next(i for i in (2, 5, 7) if i != t['id']), 'keylen': None, 'attrs': []})
@@ -285,6 +318,10 @@ def make(kind, seed, world, ip, tap, reach):
         def verdict(w):
             for t in state['tampered']:
                 node = w.nodes.get(t['receiver'])
+                if 'went_on' in t:
+                    return ('foreign_ike_response_accepted', {'what': t['what'], 'how': 'IKE_AUTH sent'},
+                            f'{t["receiver"]} answered the IKE_SA_INIT response of {t["spi_i"].hex()}/{t["spi_r"].hex()}, whose proposal is not drawn '
+                            f'from its offer ({t["what"]}), with an IKE_AUTH request at t={t["went_on"]:.2f} instead of refusing it')
                 for e in getattr(w, 'established_log', []):
                     if e['node'] == t['receiver'] and e['spi_i'] == t['spi_i'] and e['spi_r'] == t['spi_r']:
                         return ('foreign_ike_response_accepted', {'what': t['what']},
@@ -292,6 +329,75 @@ def make(kind, seed, world, ip, tap, reach):
                                 f'proposal not drawn from its offer ({t["what"]})')
             return None
         return rule, verdict
+
+    # ------------------------------------------------------------------------------------------------------------
+    if kind == 'foreign_ike_rekey_response':
+        # the responder of an IKE_SA rekey (authentic: it holds the session keys) answers with a proposal that is not drawn from the offer
+        def rule(meta, data):
+            try:
+                h = R.dec_header(data)
+            except R.DecodeError:
+                return None
+            if not h['R'] or h['exch'] != R.CREATE_CHILD_SA:
+                return None
+            opened = ip.open(data)
+            if opened is None:
+                return None
+            _, pls, s = opened
+            sa = next((p for p in pls if p['type'] == R.P_SA), None)
+            req = s.requests.get((not h['I'], h['id']))
+            sa_q = next((p for p in req['payloads'] if p['type'] == R.P_SA), None) if req else None
+            if sa is None or sa_q is None or not sa['proposals'] or sa['proposals'][0]['proto'] != R.PROTO_IKE or not sa_q['proposals']:
+                return None
+            r = random.Random(f'byz:{seed}:{meta["key"]}')
+            trs = sa['proposals'][0]['transforms']
+            offered = {(t['type'], t['id'], t['keylen']) for t in sa_q['proposals'][0]['transforms']}
+            how = r.choice(['foreign_first', 'foreign_first', 'two_of_one', 'missing', 'keylen', 'foreign_id'])
+            if how == 'foreign_first':
+                if not _foreign_first(r, trs, offered):
+                    return None
+            elif how == 'two_of_one':
+                t = next(t for t in trs if t['type'] == R.T_PRF)
+                trs.append({'type': R.T_PRF, 'id': next(i for i in (2, 5, 7) if (R.T_PRF, i, None) not in offered), 'keylen': None, 'attrs': []})
+            elif how == 'missing':
+                t = next((t for t in trs if t['type'] == R.T_INTEG), None)
+                if t is None:
+                    return None
+                trs.remove(t)
+            elif how == 'keylen':
+                t = next(t for t in trs if t['type'] == R.T_ENCR)
+                t['keylen'] = next((k for k in (192, 128, 256) if (R.T_ENCR, t['id'], k) not in offered), None)
+                if t['keylen'] is None:
+                    return None
+                t['attrs'] = [(14, t['keylen'])]
+            else:
+                t = next(t for t in trs if t['type'] == R.T_INTEG)
+                t['id'] = next((i for i in (2, 12, 14, 5) if (R.T_INTEG, i, None) not in offered), None)
+                if t['id'] is None:
+                    return None
+            new = ip.seal(s, {'spi_i': h['spi_i'], 'spi_r': h['spi_r'], 'exch': h['exch'], 'I': h['I'], 'R': True, 'id': h['id']}, pls, _rb(r, 16))
+            recv = world.net.node_of_addr(meta['dst'])
+            state['tampered'].append({'receiver': recv.name if recv else None, 'new_i': sa_q['proposals'][0]['spi'], 'new_r': sa['proposals'][0]['spi'],
+                                      'what': how})
+            count('byz.' + kind)
+            count('byz.' + kind + '.' + how)
+            return [(new, 0.0)]
+        rule.label = 'byz.' + kind
+
+        class Accepted:
+            def after_step(self, node, cause):
+                if state.get('verdict'):
+                    return
+                for t in state['tampered']:
+                    if t['receiver'] != node.name:
+                        continue
+                    for sa in node.ike_sas():
+                        if (bytes(sa.my_spi), bytes(sa.peer_spi)) == (t['new_i'], t['new_r']):
+                            state['verdict'] = ('foreign_ike_response_accepted', {'what': t['what'], 'how': 'IKE_SA rekey'},
+                                                f'{node.name} created the rekeyed IKE_SA {t["new_i"].hex()}/{t["new_r"].hex()} from a CREATE_CHILD_SA '
+                                                f'response whose proposal is not drawn from its offer ({t["what"]})')
+        world.monitors.append(Accepted())
+        return rule, lambda w: state.get('verdict')
 
     # ------------------------------------------------------------------------------------------------------------
     if kind == 'auth_malformed':
@@ -480,7 +586,8 @@ def make(kind, seed, world, ip, tap, reach):
                 pls.insert(0, {'type': R.P_NOTIFY, 'proto': 0, 'ntype': R.N_USE_TRANSPORT_MODE, 'spi': b'', 'data': b''})
             recv = world.net.node_of_addr(meta['dst'])
             state['tampered'].append({'receiver': recv.name if recv else None, 'receiver_addr': meta['dst'], 'proto': sa['proposals'][0]['proto'],
-                                      'spi_init': sa['proposals'][0]['spi'], 'rekey': rekey, 'id': h['id'], 'I': h['I'], 'key': (h['spi_i'], h['spi_r'])})
+                                      'spi_init': sa['proposals'][0]['spi'], 'rekey': rekey, 'id': h['id'], 'I': h['I'], 'key': (h['spi_i'], h['spi_r']),
+                                      'asks_transport': not has})
             count('byz.flip_mode_request')
             count('byz.flip_mode_request.' + ('rekey' if rekey else 'new'))
             new = ip.seal(s, {'spi_i': h['spi_i'], 'spi_r': h['spi_r'], 'exch': h['exch'], 'I': h['I'], 'R': False, 'id': h['id']}, pls, _rb(r, 16))
@@ -493,10 +600,19 @@ def make(kind, seed, world, ip, tap, reach):
                 if node is None:
                     continue
                 proto = PROTO_NUM.get(t['proto'])
-                if any(k[1] == proto and k[2] == t['spi_init'] for k in newsa_index(node)):
+                for k, rec in newsa_index(node).items():
+                    if k[1] != proto or k[2] != t['spi_init']:
+                        continue
+                    # the daemon installs the mode of the protect entry it matched: if that is the mode that was asked for, the request was
+                    # within its policy (configurations whose modes already differ, or overlapping entries in both modes, make the flipped
+                    # mode the right one: quick tier, seed 1001073)
+                    if (rec['decoded']['sa']['mode'] == 0) == t['asks_transport']:
+                        count('byz.flip_mode_request.matches_policy_after_all')
+                        continue
                     return ('mode_mismatching_request_installed', {'rekey': t['rekey']},
-                            f'{t["receiver"]} installed an SA towards SPI {t["spi_init"].hex()} for a CREATE_CHILD_SA '
-                            f'{"rekey " if t["rekey"] else ""}request asking for the mode its policy does not have')
+                            f'{t["receiver"]} installed a {"transport" if rec["decoded"]["sa"]["mode"] == 0 else "tunnel"}-mode SA towards SPI '
+                            f'{t["spi_init"].hex()} for a CREATE_CHILD_SA {"rekey " if t["rekey"] else ""}request asking for '
+                            f'{"transport" if t["asks_transport"] else "tunnel"} mode')
             return None
         return rule, verdict
 
@@ -567,6 +683,108 @@ def make(kind, seed, world, ip, tap, reach):
             return [(new, 0.0)]
         rule.label = 'byz.bad_reply'
         return rule, lambda w: None
+
+    # ------------------------------------------------------------------------------------------------------------
+    if kind == 'reuse_spi_request':
+        p_hit = r0.choice([0.3, 0.6, 1.0])
+
+        def rule(meta, data):
+            try:
+                h = R.dec_header(data)
+            except R.DecodeError:
+                return None
+            if h['R'] or h['exch'] != R.CREATE_CHILD_SA:
+                return None
+            opened = ip.open(data)
+            if opened is None:
+                return None
+            _, pls, s = opened
+            sa = next((p for p in pls if p['type'] == R.P_SA), None)
+            if sa is None or not sa['proposals'] or sa['proposals'][0]['proto'] == R.PROTO_IKE:
+                return None
+            r = random.Random(f'byz:{seed}:{meta["key"]}')
+            if r.random() >= p_hit:
+                return None
+            sender = meta['sender']
+            proto = sa['proposals'][0]['proto']
+            # SPIs this sender receives on, for CHILD_SAs of the same IPsec protocol negotiated earlier with the same peer
+            used = [c['spi_init'] if c['x_init'] == sender else c['spi_resp'] for c in tap.children
+                    if sender in (c['x_init'], c['x_resp']) and c['proto'] == proto]
+            used = [u for u in used if u != sa['proposals'][0]['spi']]
+            if not used:
+                return None
+            spi = r.choice(used[-3:])
+            for pr in sa['proposals']:
+                pr['spi'] = spi
+            count('byz.' + kind)
+            new = ip.seal(s, {'spi_i': h['spi_i'], 'spi_r': h['spi_r'], 'exch': h['exch'], 'I': h['I'], 'R': False, 'id': h['id']}, pls, _rb(r, 16))
+            return [(new, 0.0)]
+        rule.label = 'byz.' + kind
+        return rule, lambda w: None
+
+    # ------------------------------------------------------------------------------------------------------------
+    if kind == 'narrow_rekey_request':
+        # a peer that asks to rekey a CHILD_SA with selectors narrower than the ones that CHILD_SA has: whatever the responder installs
+        # must lie inside what was proposed AND equal the replaced SA's selectors, which cannot both hold - it has to refuse
+        def rule(meta, data):
+            try:
+                h = R.dec_header(data)
+            except R.DecodeError:
+                return None
+            if h['R'] or h['exch'] != R.CREATE_CHILD_SA:
+                return None
+            opened = ip.open(data)
+            if opened is None:
+                return None
+            _, pls, s = opened
+            sa = next((p for p in pls if p['type'] == R.P_SA), None)
+            rk = next((p for p in pls if p['type'] == R.P_NOTIFY and p['ntype'] == R.N_REKEY_SA), None)
+            if sa is None or rk is None or not sa['proposals'] or sa['proposals'][0]['proto'] == R.PROTO_IKE:
+                return None
+            r = random.Random(f'byz:{seed}:{meta["key"]}')
+            which = r.choice(['tsi', 'tsr', 'both'])
+            done = False
+            for name, t in (('tsi', R.P_TSi), ('tsr', R.P_TSr)):
+                p = next((p for p in pls if p['type'] == t), None)
+                if p is None or which not in (name, 'both'):
+                    continue
+                for sel in p['selectors']:
+                    n = len(sel['saddr'])
+                    a, z = int.from_bytes(sel['saddr'], 'big'), int.from_bytes(sel['eaddr'], 'big')
+                    how = r.choice(['half', 'port', 'proto'])
+                    if how == 'half' and z > a:
+                        sel['eaddr'] = (a + (z - a) // 2).to_bytes(n, 'big')
+                        done = True
+                    elif how == 'port' and (sel['sport'], sel['eport']) == (0, 65535):
+                        sel['sport'] = sel['eport'] = 443
+                        done = True
+                    elif how == 'proto' and sel['proto'] == 0:
+                        sel['proto'] = 6
+                        done = True
+            if not done:
+                return None
+            count('byz.' + kind)
+            new = ip.seal(s, {'spi_i': h['spi_i'], 'spi_r': h['spi_r'], 'exch': h['exch'], 'I': h['I'], 'R': False, 'id': h['id']}, pls, _rb(r, 16))
+            recv = world.net.node_of_addr(meta['dst'])
+            state['tampered'].append({'receiver': recv.name if recv else None, 'sender_addr': meta['src'], 'proto': sa['proposals'][0]['proto'],
+                                      'spi_init': sa['proposals'][0]['spi'], 'which': which})
+            return [(new, 0.0)]
+        rule.label = 'byz.' + kind
+
+        def verdict(w):
+            for t in state['tampered']:
+                node = w.nodes.get(t['receiver'])
+                if node is None:
+                    continue
+                k = (_addr_raw(t['sender_addr']), PROTO_NUM.get(t['proto']), t['spi_init'])
+                rec = newsa_index(node).get(k)
+                if rec is not None:
+                    return ('rekey_request_with_narrowed_selectors_installed', {'which': t['which']},
+                            f'{t["receiver"]} installed an SA towards SPI {t["spi_init"].hex()} for a request to rekey a CHILD_SA whose selectors '
+                            f'({t["which"]}) were narrower than those of the CHILD_SA being rekeyed: either the installed selectors exceed what was '
+                            f'proposed or they differ from the replaced ones')
+            return None
+        return rule, verdict
 
     # ------------------------------------------------------------------------------------------------------------
     if kind in ('multi_proposal_request', 'ts_list_request'):
